@@ -39,7 +39,8 @@ def mutate(rng, msg):
     elif k == 4 and len(m) > 4:
         i = rng.randrange(1, len(m) - 1); del m[i]
     elif k == 5:
-        m[2] = rng.choice([0, 1, 0x0F, 0x10, 0x1F, 0x20, 0x7E, 0x7F, 0x80, 0xFF, (m[2] + 1) % 256])
+        low = m[2] % 16
+        m[2] = rng.choice([0, 1, 0x0F, 0x10, 0x1F, 0x20, 0x7E, 0x7F, 0x80, 0xFF, (m[2] + 1) % 256] + [16 * j + low for j in range(8)] * 2)
     elif k == 6 and len(m) > 3:
         m[-2] = (m[-2] + rng.choice([1, 2, 64, 127])) % 256
     else:
@@ -101,7 +102,7 @@ def histories(ctx):
                 # addressed to another device
                 other = (dev + rng.randrange(1, 16)) % 16
                 _, msg = rng.choice(recognised(other, rng))
-            if rng.random() < 0.06:
+            if rng.random() < (0.25 if dev == 7 else 0.06):
                 msg = rng.choice([[0xF0, rng.choice([0x41, 0x43, 0x7E, 0x7F]), 0xF7], [0xF0, 0xF7], [0xF0], [0xF7], [],
                                   [0xF0, rng.choice([0x41, 0x43]), rng.choice([0x10 + dev, 0x7F, dev]), 0xF7]])
             h.append("sysex " + ("".join("%02x" % b for b in msg) if msg else "-"))
